@@ -227,7 +227,9 @@ func damage(r *rand.Rand, t *SpecTable, body []*Node) []*Node {
 	}
 	n := all[r.Intn(len(all))]
 	i := r.Intn(len(n.Items))
-	switch r.Intn(6) {
+	switch r.Intn(7) {
+	case 6: // layout: a Line() in front of an item (g.Line().Return(..), a blank line between two statements of a block)
+		n.Items = append(n.Items[:i:i], append([]*Node{{K: "tok", T: "layout", V: "\n"}}, n.Items[i:]...)...)
 	case 0: // drop
 		n.Items = append(n.Items[:i:i], n.Items[i+1:]...)
 	case 1: // duplicate
